@@ -96,6 +96,32 @@ Proof.
 Qed.
 
 (* ---------------------------------------------------------------------------------------------- *)
+(* the walk over zero-width spans at the upper end: everything stepped over equals x, and it stops either at
+   [order] or below x *)
+Lemma skip_flat_spec fuel : forall c0,
+  order <= c0 -> c0 < nknots -> (Z.to_nat (c0 - order) <= fuel)%nat -> leb (kn c0) x = true ->
+  let c := skip_flat kn fuel x order c0 in
+  order <= c <= c0 /\
+  (forall j, c < j <= c0 -> leb x (kn j) = true /\ leb (kn j) x = true) /\
+  (c = order \/ ltb (kn c) x = true).
+Proof.
+  induction fuel as [|f IH]; intros c0 H0 H1 Hf Hle; cbv zeta.
+  - cbn [skip_flat]. split; [lia|]. split; [intros j Hj; lia|]. left. lia.
+  - cbn [skip_flat].
+    assert (Oc : ord (kn c0)) by (apply Hord_kn; lia).
+    destruct (order <? c0) eqn:E0; cbn [andb].
+    + apply Z.ltb_lt in E0. rewrite Hle, andb_true_r.
+      destruct (leb x (kn c0)) eqn:E1.
+      * assert (Hle' : leb (kn (c0 - 1)) x = true).
+        { eapply (leb_trans A ord laws (kn (c0 - 1)) (kn c0) x); auto; [apply Hord_kn; lia|apply Hsorted; lia]. }
+        destruct (IH (c0 - 1) ltac:(lia) ltac:(lia) ltac:(lia) Hle') as [I1 [I2 I3]].
+        split; [lia|]. split; [|exact I3].
+        intros j Hj. destruct (Z.eq_dec j c0) as [->|Hne]; [split; assumption|]. apply I2. lia.
+      * split; [lia|]. split; [intros j Hj; lia|]. right. apply leb_false_lt; auto.
+    + apply Z.ltb_ge in E0. split; [lia|]. split; [intros j Hj; lia|]. left. lia.
+Qed.
+
+(* ---------------------------------------------------------------------------------------------- *)
 Lemma accepts_iff fuel :
   search_dim kn nknots fuel order naxes x <> Outside <->
   (ltb (kn 0) x = true /\ leb x (kn (nknots - 1)) = true).
@@ -117,7 +143,10 @@ Lemma search_post fuel c :
   order <= c <= nknots - order - 2 /\
   (leb (kn order) x = true -> ltb x (kn naxes) = true -> leb (kn c) x = true /\ ltb x (kn (c + 1)) = true) /\
   (ltb x (kn order) = true -> c = order) /\
-  (leb (kn naxes) x = true -> c = naxes - 1).
+  (leb (kn naxes) x = true ->
+     c <= naxes - 1 /\
+     (forall j, c < j <= naxes - 1 -> leb x (kn j) = true /\ leb (kn j) x = true) /\
+     (c = order \/ ltb (kn c) x = true)).
 Proof.
   intros Hfuel.
   assert (Oo : ord (kn order)) by (apply Hord_kn; lia).
@@ -136,11 +165,14 @@ Proof.
       assert (leb (kn order) x = true) by (eapply (leb_trans A ord laws); [| | | exact Hon | exact Hq]; auto).
       apply lt_not_le in E1; auto. congruence.
   - unfold geb. destruct (leb (kn naxes) x) eqn:E2.
-    + intros H; inversion H; subst c.
+    + assert (Hle1 : leb (kn (naxes - 1)) x = true).
+      { eapply (leb_trans A ord laws (kn (naxes - 1)) (kn naxes) x); auto; [apply Hord_kn; lia|apply Hsorted; lia]. }
+      destruct (skip_flat_spec (Z.to_nat (naxes - 1 - order)) (naxes - 1) ltac:(lia) ltac:(lia) ltac:(lia) Hle1) as [S1 [S2 S3]].
+      intros H; inversion H; subst c.
       split; [lia|]. split; [|split].
       * intros _ Hq. apply lt_not_le in Hq; auto. congruence.
       * discriminate.
-      * reflexivity.
+      * intros _. split; [lia|]. split; assumption.
     + assert (Hlo : leb (kn order) x = true) by (apply ltb_false_le; auto).
       assert (Hhi : ltb x (kn naxes) = true) by (apply leb_false_lt; auto).
       destruct (bsearch_inv fuel order (nknots - 2)) as [c' [H1 [H2 [H3 H4]]]]; try lia; auto.
@@ -204,7 +236,24 @@ Definition center_post (d : dimn) (x : K) (c : Z) : Prop :=
   (leb (d_kn d o) x = true -> ltb x (d_kn d (d_naxes d)) = true ->
      leb (d_kn d c) x = true /\ ltb x (d_kn d (c + 1)) = true) /\
   (ltb x (d_kn d o) = true -> c = o) /\
-  (leb (d_kn d (d_naxes d)) x = true -> c = d_naxes d - 1).
+  (* from the upper end of full support upwards: the last fully supported span, stepping down over zero-width spans
+     on a repeated knot (everything stepped over equals x) until a span of positive width or [order] is reached *)
+  (leb (d_kn d (d_naxes d)) x = true ->
+     c <= d_naxes d - 1 /\
+     (forall j, c < j <= d_naxes d - 1 -> leb x (d_kn d j) = true /\ leb (d_kn d j) x = true) /\
+     (c = o \/ ltb (d_kn d c) x = true)).
+
+(* the common case: x above the knot before the upper end (no repeated knot there, or x in the right margin):
+   the index is the last fully supported span *)
+Lemma center_post_last (d : dimn) (x : K) (c : Z) :
+  wf_dim d -> ord x -> center_post d x c ->
+  leb (d_kn d (d_naxes d)) x = true -> ltb (d_kn d (d_naxes d - 1)) x = true -> c = d_naxes d - 1.
+Proof.
+  intros [W1 [W2 [W3 W4]]] Ox [P1 [_ [_ P4]]] H1 H2. destruct (P4 H1) as [Q1 [Q2 _]].
+  destruct (Z.eq_dec c (d_naxes d - 1)) as [E|E]; [exact E|]. exfalso.
+  destruct (Q2 (d_naxes d - 1) ltac:(lia)) as [Q _].
+  rewrite (ltb_leb A ord laws _ _ (W3 (d_naxes d - 1) ltac:(lia)) Ox), Q in H2. discriminate.
+Qed.
 
 Inductive Forall3 {X Y Z0} (P : X -> Y -> Z0 -> Prop) : list X -> list Y -> list Z0 -> Prop :=
 | F3_nil : Forall3 P [] [] []
@@ -281,6 +330,17 @@ Proof.
   destruct (searchcenters_dims_spec (dims t) xs Hwf Hxs Hlen) as [[E Hn]|[cs' [E [_ Hp]]]]; rewrite E.
   - discriminate.
   - intros H; inversion H; subst; exact Hp.
+Qed.
+
+(* the common case at the upper end: above the knot before knots[naxes] the index is the last fully supported span *)
+Definition center_last (d : dimn) (x : K) (c : Z) : Prop :=
+  leb (d_kn d (d_naxes d)) x = true -> ltb (d_kn d (d_naxes d - 1)) x = true -> c = d_naxes d - 1.
+Lemma sc_post_last : forall cs, searchcenters t xs = CFound cs -> Forall3 center_last (dims t) xs cs.
+Proof.
+  intros cs Hsc. pose proof (sc_post cs Hsc) as HP. clear Hsc Hlen.
+  revert Hwf Hxs. induction HP as [|d x c ds xs' cs' Hp HP IH]; intros Hwf Hxs; constructor.
+  - inversion Hwf; subst. inversion Hxs; subst. intros Ha Hb. eapply center_post_last; eauto.
+  - inversion Hwf; subst. inversion Hxs; subst. apply IH; assumption.
 Qed.
 End Top.
 
